@@ -65,6 +65,17 @@ Proof.
   - intros [H1 H2]. split; auto. intros m _. apply Forall_nth_d; auto. constructor.
 Qed.
 
+Lemma dbag_inv D Fs : vnn (dbag D Fs) <-> forall m, In m D -> mnn (nth m Fs []).
+Proof.
+  unfold dbag. rewrite <- Forall_mnn_concat. rewrite Forall_map. rewrite Forall_forall. reflexivity.
+Qed.
+Lemma cp_dbag_inv D st : vnn (cp_dbag D st) <-> cp_inv (fun m => In m D) st.
+Proof.
+  unfold cp_dbag, cp_inv. split.
+  - intros H. apply Forall_app in H. destruct H as [H1 H2]. split; auto. apply dbag_inv; auto.
+  - intros [H1 H2]. apply Forall_app; split; auto. apply dbag_inv; auto.
+Qed.
+
 (* every call contract preserves entrywise non-negativity: the theorems about the functions of Model/Nonneg.v *)
 Theorem contract_sound f l0 l1 : contract f l0 l1 -> vnn l0 -> vnn l1.
 Proof.
@@ -73,6 +84,7 @@ Proof.
   - apply fista_nn; auto.
   - eapply active_set_nnls_nonneg; eauto.
   - apply cp_bag_inv. apply cp_inv_all. apply cp_normalize_inv; auto. apply cp_inv_all. apply cp_bag_inv in H. exact H.
+  - apply cp_dbag_inv. apply cp_normalize_inv; auto. apply cp_dbag_inv; auto.
   - apply tk_bag_inv. apply tucker_normalize_inv; auto. apply tk_bag_inv; auto.
   - apply cp_bag_inv. apply cp_inv_all. apply initialize_cp_nn_inv; auto.
   - apply cp_bag_inv. apply cp_inv_all. apply cp_bag_inv in H. cbn [fst snd] in H. destruct H as [H1 H2].
